@@ -42,6 +42,7 @@ def check(ck: Checker) -> None:
     from .C12 import check_index_read_after_validation
 
     check_index_read_after_validation(ck, "C18.closed")
+    _collect_skip(ck, "C18.closed")
     _objectpath(ck)
     _accessors(ck)
     for o in ck.obs:
@@ -235,3 +236,35 @@ def _legacy(ck: Checker) -> None:
                 ok = True
     ck.require(ok, "C18.legacy", ld, n, "a legacy (md5-dos2unix) store's listings are parsed with the store's algorithm name",
                "Tree.load no longer falls back to the store's md5-dos2unix algorithm when parsing a listing: listed files get hash name 'md5', do not match the collected entries, and the directory object is transferred without its files")
+
+
+def _collect_skip(ck: Checker, rule: str) -> None:
+    """index.collect.collect(): a storage is skipped as "already in the persistent collection cache" only the first
+    time this call meets it (`key not in storage_by_fs`).  Once the call itself has started filling that storage,
+    the cache has the node because of *this* call - skipping then drops every later prefix that resolves to the
+    same storage, so its entries are never requested (and nothing is counted as failed)."""
+    fn = ck.prog.func("index.collect", "collect")
+    g = ck.cfg(fn)
+    # the per-call table of storages: the dict the final loop iterates with .items()
+    tables = {norm(h.ast.iter.func.value) for h in g.nodes.values() if h.kind == "for" and not h.loops[:-1] and isinstance(h.ast.iter, ast.Call) and is_method_call(h.ast.iter, "items") and isinstance(h.ast.iter.func.value, ast.Name)
+              and any(d.kind in ("assign", "annassign") and isinstance(d.value, (ast.Dict,)) and not d.value.keys for d in scope_of(fn).get(norm(h.ast.iter.func.value)))}
+    skips = [(n, c) for n in g.nodes.values() for c in calls_at(n) if is_method_call(c, "add") and isinstance(c.func.value, ast.Name) and n.loops
+             and any(isinstance(t.ast, ast.Compare) and len(t.ast.ops) == 1 and isinstance(t.ast.ops[0], (ast.In, ast.NotIn)) and norm(t.ast.comparators[0]) == c.func.value.id for t in g.nodes.values() if t.kind == "test")
+             and any(d.kind in ("assign", "annassign") and isinstance(d.value, ast.Call) and norm(d.value) == "set()" for d in scope_of(fn).get(c.func.value.id))]
+    ck.floor(rule, len(tables), 1, "per-call storage tables in collect()")
+    ck.floor(rule, len(skips), 1, "skip-set insertions in collect()")
+    for n, c in skips:
+        k = norm(c.args[0]) if c.args else "?"
+
+        def first_time(t, lab, k=k):
+            if t.kind != "test" or not isinstance(t.ast, ast.Compare) or len(t.ast.ops) != 1:
+                return False
+            e = t.ast
+            if norm(e.left) != k or norm(e.comparators[0]) not in tables:
+                return False
+            return (isinstance(e.ops[0], ast.NotIn) and lab == "T") or (isinstance(e.ops[0], ast.In) and lab == "F")
+
+        wit = cut(g, [n.id], first_time, start=n.loops[-1])
+        ck.require(wit is None, rule, fn, n, "a storage is skipped as already collected only when this call has not met it yet",
+                   f"`{norm(c)}` can mark a storage as already collected although this very call has just started collecting it (no `{k} not in <per-call table>` on the way): every later prefix that resolves to the same storage is then left out, its entries are never requested and nothing is reported as failed",
+                   witness=g.fmt_path(wit) if wit else None, construct=f"{norm(c)} / first meeting only")
